@@ -225,7 +225,7 @@ impl Check for C20Check {
     }
     fn phases(&self, tier: Tier) -> Vec<Phase> {
         let n = POOL.len() as u64;
-        vec![Phase::exhaustive("pool-pairs", n * n * 2).with_chunk(64), Phase::random("random-sequences", tier.pick(20_000, 500_000), 200).with_min_tape(40).with_chunk(256)]
+        vec![Phase::exhaustive("pool-pairs", n * n * 2).with_chunk(64), Phase::random("random-sequences", tier.pick(60_000, 800_000), 200).with_min_tape(40).with_chunk(256)]
     }
     fn run(&self, _tier: Tier, phase: usize, input: &Input, ctx: &mut CaseCtx) {
         match (phase, input) {
